@@ -2,8 +2,8 @@
 
 proof   : Props/C36.v — generic lockset theorem (any number of threads, any schedule, exclusive/shared locks) instantiated
           at Gen.LockSites (every syntactic access to the tracked fields with the mutexes held, extracted from the Go AST
-          on every run) for the guarded field list; caller-holds-lock contracts checked at every call site; the full
-          field list is refuted by Node.val (no mutex at all).
+          on every run) for the guarded field list; caller-holds-lock contracts (subMux, channel instance lock) checked
+          at every call site; Node.val/Node.attr are guarded since the fix of race/Node.val (regression witness kept).
 tie     : the concurrent scenarios (requests + channel renewal with a short lifetime + subscription with item churn;
           the C34 and C28 scenarios) run from a binary built with -race; every `WARNING: DATA RACE` report is parsed:
           a report whose access lies on a line the table attributes to a guarded field is a correspondence break;
@@ -13,7 +13,7 @@ import json, os, re
 import vf
 
 GUARDED = ["SecureChannel.instances", "SecureChannel.instances[]", "SecureChannel.activeInstance", "SecureChannel.handlers", "SecureChannel.chunks",
-           "Client.subs", "Client.pendingAcks", "MonitoredItemService.Items", "MonitoredItemService.Nodes",
+           "Client.subs", "Client.pendingAcks", "Node.val", "Node.attr", "MonitoredItemService.Items", "MonitoredItemService.Nodes",
            "MonitoredItemService.Subs", "SubscriptionService.Subs", "sessionBroker.s", "channelBroker.s"]
 ROOTS = ["handleOpenSecureChannelRequest", "renew", "SetAttribute", "ChangeNotification"]
 
@@ -161,8 +161,6 @@ def run(ctx):
     for c in crashed:
         if ctx.finding("scenario-crash", "race scenario crashed: " + c["args"], c):
             new += 1
-    if ctx.is_known("race/Node.val") is None and not any(k == "race/Node.val" for k in seen):
-        ctx.notes.append("predicted by the table but not observed by the race detector in this run: Node.val (Node.SetAttribute write vs Node.Attribute read from the background ChangeNotification goroutine of CreateMonitoredItems); the window is a few instructions wide")
 
     ctx.coverage.update({
         "evaluations": len(sites) and sum(len(v) for v in sites.values()),
